@@ -104,8 +104,11 @@ def runHull (c : Case) : Res :=
       if !(hf.all bf.contains && bf.all hf.contains && hf.length == bf.length) then
         bad := s!"hull facets {hf.length} differ from the facets incident to exactly one cell ({bf.length})" :: bad
       if !closedBoundary K then bad := "hull facets do not form a closed surface" :: bad
-      if !(convexityViolations K).isEmpty then
-        bad := s!"a vertex lies strictly beyond a hull facet: {(convexityViolations K).take 2}" :: bad
+      -- judged outside the predicates' tolerance band only: perturbed, nearly collinear hull
+      -- vertices can be non-convex by 1e-16, which no float predicate of the library can see
+      if !(convexityViolations K).isEmpty then stats := (if (strictConvexViols K).isEmpty then "hull.convexity.inband_only" else "hull.convexity.strict") :: stats
+      if !(strictConvexViols K).isEmpty then
+        bad := s!"a vertex lies strictly (beyond the tolerance band) beyond a hull facet: {(strictConvexViols K).take 2}" :: bad
       match c.ob "hull_validate" with
       | some (v :: rest) => if v != "ok" then bad := s!"ConvexHull::validate = {v} {rest}" :: bad
       | _ => pure ()
